@@ -202,4 +202,20 @@ theorem decodeLines_append_noop (ls g : List Str) (hdr : Str) (s : Sec)
       rw [route_append_header hdr s g hs, List.foldl_append]
       exact foldl_route_noop s hn g hg _
 
+/-- lines that are not section headers are invisible to the search for the first section -/
+theorem firstSection_skip_prefix (pre rest : List Str) (h : ∀ l ∈ pre, secOfLine l = none) :
+    firstSection (pre ++ rest) = firstSection rest := by
+  induction pre with
+  | nil => rfl
+  | cons l ls ih =>
+    simp only [List.cons_append]
+    rw [firstSection, h l (List.mem_cons_self ..)]
+    exact ih (fun x hx => h x (List.mem_cons_of_mem _ hx))
+
+/-- the lines that reach a parser, in order, form a sublist of the file's lines -/
+theorem routed_sublist (ls : List Str) (sec : Sec) (body : List Str)
+    (h : firstSection (parseVersion ls).2 = some (sec, body)) :
+    ((route sec body).map (·.2)).Sublist ls :=
+  ((route_sublist sec body).trans (firstSection_sublist _ sec body h)).trans (parseVersion_sublist ls)
+
 end Rosu.DecodeLine
